@@ -70,7 +70,9 @@ class World:
         for a in abstracts:
             model["types"].append({"kind": "abstract", "name": a})
         concretes = []
-        for i in range(rng.randint(0, 4)):
+        # now and then an abstract type with very many implementers
+        crowd = rng.random() < 0.05
+        for i in range(rng.randint(33, 40) if crowd else rng.randint(0, 4)):
             # names that contain one another (c1, c1-x, x): admission goes
             # by the whole name, never by a part of it
             tname = "c%d" % (i + 1)
@@ -84,7 +86,9 @@ class World:
                  "datatype": "wrap" if rng.random() < 0.2 else None,
                  "extends": None, "implements": None,
                  "children": [_key_alpha()]}
-            if rng.random() < 0.6:
+            if crowd:
+                t["implements"] = abstracts[0]
+            elif rng.random() < 0.6:
                 t["implements"] = rng.choice(abstracts)
             if concretes and rng.random() < 0.4:
                 t["extends"] = rng.choice(concretes)
@@ -646,6 +650,20 @@ def run_shard(ctx):
                 ctx.res.count("world_failed")
                 ctx.res.sample("world-failed", {"error": "%s: %s" % (
                     type(e).__name__, e)}, 2)
+                import ZConfig
+                if isinstance(e, ZConfig.ConfigurationError):
+                    # the generated schema (abstract types, implementers,
+                    # component packages) obeys every rule: refusing it
+                    # is refusing its implementers
+                    ctx.res.evaluations += 1
+                    ctx.res.violate(
+                        "schema-with-implementers-refused",
+                        {"world": wi, "seed": ctx.seed, "shard": ctx.shard},
+                        "loads", "%s: %s" % (type(e).__name__,
+                                             str(e)[:200]),
+                        detail="world %d: %s: %s" % (wi, type(e).__name__,
+                                                     str(e)[:160]),
+                        vsig="world|%s" % type(e).__name__)
                 continue
             ctx.res.count("worlds")
             run_world(ctx, w, hook, rng)
@@ -658,6 +676,17 @@ def replay(ctx, case):
     import re
     import ZConfig
     space = packages.PackageSpace(os.path.join(ctx.tmp, "pkgs"), "c12r")
+    if "world" in case:
+        from ..core.shard import Ctx
+        c2 = Ctx("C12", "quick", case["seed"], case["shard"], shards("quick"))
+        try:
+            World(c2.rng("world", case["world"]), space)
+        except ZConfig.ConfigurationError as e:
+            ctx.res.violate("schema-with-implementers-refused", case,
+                            "loads", "%s: %s" % (type(e).__name__, e))
+        finally:
+            space.close()
+        return
     try:
         base = re.search(r"<import package=\"([^\"]+)\" file=\"abstract",
                          case["xml"])
